@@ -166,7 +166,7 @@ def _is_generalized_ppt_dim_list(num_partite):
     return ret
 
 
-def is_generalized_ppt(rho, dim, return_info=False):
+def is_generalized_ppt(rho, dim, return_info=False, zero_eps=1e-10):
     '''Generalized Positive Partial Transpose (PPT)
 
     The generalized partial transposition criterion for separability of multipartite quantum states
@@ -176,6 +176,8 @@ def is_generalized_ppt(rho, dim, return_info=False):
         rho (np.ndarray): density matrix
         dim (tuple[int]): tuple of integers
         return_info (bool): whether to return the list of nuclear norms
+        zero_eps (float): tolerance when comparing the nuclear norms with 1 (the norm of the un-realigned matrix
+            is the trace, which equals 1 only up to rounding)
 
     Returns:
         tag (bool): whether rho is generalized PPT (superset of SEP)
@@ -195,9 +197,9 @@ def is_generalized_ppt(rho, dim, return_info=False):
         tmp1 = rho.transpose(*dim0, *dim1).reshape(tmp0, -1)
         # nuclear norm: sum of singular values
         ret.append((dim0, dim1, np.linalg.norm(tmp1, ord='nuc')))
-        if (not return_info) and (ret[-1][2]>1):
+        if (not return_info) and (ret[-1][2]>1+zero_eps):
             break
-    tag = all(x[2]<=1 for x in ret)
+    tag = all(x[2]<=1+zero_eps for x in ret)
     ret = (tag,ret) if return_info else tag
     return ret
 
